@@ -4,6 +4,7 @@ import ChythonModel.Proofs.C05Classify
 import ChythonModel.Proofs.C05Rules
 import ChythonModel.Proofs.C05Thiele
 import ChythonModel.Proofs.C05Round
+import ChythonModel.Proofs.C05Prepare
 /-!
 # C05 — Kekulé and aromatic forms describe the same molecule; conversions are stable
 
@@ -165,6 +166,25 @@ theorem thiele_aromatises_only_candidate_rings (k t : Mol) (sssr : List (List Na
     ∃ r ∈ sssr, onRing r n m = true ∧ candidate (ringKind k r) = true :=
   aromatisedOnlyEligible_sound k t sssr h n m b b' hb hb' h4 hn4
 
+/-- the functional model of `thiele(fix_tautomers=False)` (the function behind the driver's `tnf`, compared with the
+    real result on every case) describes the same molecule for **every** input: the atom list is returned untouched
+    (element, isotope, charge, radical, hydrogens) and so is the neighbour structure — only bond orders are assigned -/
+theorem thiele_model_same_molecule (m : Mol) (sssr : List (List Nat)) (r : Bool) (t : Mol)
+    (h : thieleNoFix m sssr = some (r, t)) :
+    t.atoms = m.atoms ∧ SameSkeleton m t ∧ brutto m = brutto t ∧ molecularCharge m = molecularCharge t := by
+  obtain ⟨ha, hk⟩ := thieleNoFix_frame m sssr r t h
+  refine ⟨ha, ⟨by rw [ha], hk.symm⟩, ?_, ?_⟩
+  · unfold brutto Valence.implicitTotal; rw [ha]
+  · unfold molecularCharge; rw [ha]
+
+/-- … and answers `False` only together with the unchanged molecule (the default `thiele()` violates exactly this on
+    the inputs of the known finding `thiele-false-but-changed`) -/
+theorem thiele_model_false_unchanged (m : Mol) (sssr : List (List Nat)) (t : Mol)
+    (h : thieleNoFix m sssr = some (false, t)) : t = m :=
+  thieleNoFix_false_unchanged m sssr t h
+
+example : (thieleNoFix pyrroleKek [[1, 2, 3, 4, 5]]).map (·.1) = some true := by decide +kernel
+
 example : ringKind pyrroleKek [1, 2, 3, 4, 5] = .pyrrole 1 := by decide
 example : monoAromatic pyrroleKek [1, 2, 3, 4, 5] = true := by decide
 example : aromatisedOnlyEligible pyrroleKek { pyrroleArom with atoms := pyrroleKek.atoms } [[1, 2, 3, 4, 5]] = true := by decide
@@ -250,6 +270,17 @@ theorem prepare_rings_degrees (m : Mol) (sssr : List (List Nat)) (p : Prep) (h :
                 have := hdeg r hr
                 simp only [Bool.not_eq_false, Bool.or_eq_true, beq_iff_eq] at this
                 exact this
+
+/-- `pyrroles` and `double_bonded` only contain atoms of the aromatic skeleton — the `must` / `never` lists handed to
+    `checkMatching` therefore speak about ring atoms only -/
+theorem prepare_rings_sets_in_skeleton (m : Mol) (sssr : List (List Nat)) (p : Prep) (h : prepareRings m sssr = some p) :
+    (∀ x ∈ p.pyrroles, x ∈ p.rings.keys) ∧ (∀ x ∈ p.dbl, x ∈ p.rings.keys) :=
+  prepareRings_sets m sssr p h
+
+/-- the normalised aromatic form (`normalise`, the left argument of `checkKekule` in the driver's `kekn`) has exactly
+    the atoms of the input: the repairs of mis-drawn rings touch bond orders only -/
+theorem normalise_preserves_atoms (m : Mol) (p : Prep) : (normalise m p).atoms = m.atoms :=
+  normalise_atoms m p
 
 /-! ## 5. the repair rules of `aromatics/_rules.py` (regenerated table) -/
 
